@@ -23,7 +23,7 @@ EXHAUSTIVE = {
     "quick": "relations: every ordered tree with <=5 nodes x EVERY permutation of its edge rows (list and polars "
              "variants); heap: every list length 0..70",
     "thorough": "relations: every ordered tree with <=6 nodes x EVERY permutation of its edge rows (list variant; "
-                "polars/pandas up to 5 nodes); heap: every list length 0..70",
+                "polars up to 5 nodes, pandas up to 4 nodes); heap: every list length 0..70",
 }
 MODELLED = [
     "a relation DataFrame is a list of rows (child, parent|missing, cells); columns are homogeneous "
